@@ -85,6 +85,14 @@ DEDICATED: list[str] = [
     "{% for i in a %}{% render 'st' %}{% render 'stv' with i as v %}{% endfor %}",
     "{% case x %}{% when 1, 1 %}a{% when x or 2 %}b{% when y.a, x, 'a b' %}c{% else %}d{% endcase %}",
     "{% with v: 2, w: v %}{{ v }}{{ w }}{% endwith %}{% with w: v, v: 3 %}{{ w }}{% endwith %}",
+    # short-circuit evaluation: the right operand would raise if it were evaluated
+    "{% if nosuch and nosuch < 1 %}a{% else %}b{% endif %}|{% if x or nosuch < 1 %}c{% else %}d{% endif %}",
+    "{% if y.zz and y.zz >= x %}a{% else %}b{% endif %}{% unless x or a > x %}c{% else %}d{% endunless %}",
+    "{{ 'T' if x or a < 1 else 'F' }}{% if false and a > 1 %}a{% elsif nil and y < 1 %}b{% else %}c{% endif %}",
+    # inheritance state within one render: an inheriting partial, then the same block names without inheritance
+    "{% include 'leaf' %}|{% include 'base' %}|{% render 'leaf' %}|{% render 'base' %}",
+    "{% include 'mid' %}{% block a %}page-a{{ x }}{% endblock %}{% block b %}page-b{% endblock %}",
+    "{% render 'leaf', v: 1 %}{% block a %}P{% endblock %}{% include 'mid' %}{% block b %}Q{% endblock %}",
     "{{ y | first }}{{ y.b | last }}{{ nosuch | first }}{{ a | first | first }}",
     "{% macro m p, q: x %}[{{ p }}{{ q }}{{ args | join: ',' }}{{ kwargs.k }}]{% endmacro %}{% call m 1 %}{% call m x, 2, 3, k: y.a %}{% call nom %}",
     "{% with v: x, w: y.a %}{{ v }}{{ w }}{% with v: 2 %}{{ v }}{% endwith %}{{ v }}{% endwith %}{{ v }}",
